@@ -55,6 +55,13 @@ Definition dsadd (x : ds) (l : list ds) : list ds := if dsmem x l then l else l 
 Definition adj (m : list (N * list N)) (t : N) : list N :=
   match lookup N.eqb t m with Some l => l | None => [] end.
 
+(* first error wins, results in order *)
+Fixpoint res_map {A B} (f : A -> res B) (l : list A) : res (list B) :=
+  match l with
+  | [] => Ok []
+  | x :: r => bind (f x) (fun y => bind (res_map f r) (fun ys => Ok (y :: ys)))
+  end.
+
 (* ------------------------------------------------------------------ decompose *)
 Section Graph.
   Variables ei eo : N -> list N.     (* edge_i_proj[t], edge_o_proj[t] in some iteration order *)
@@ -171,22 +178,22 @@ Section Graph.
   Definition ncd_cell (L : Z) (nodes : list N) (pa pb : pmap) : Z :=
     fold_left (fun acc c => Z.min acc (Z.max (pget L pa c) (pget L pb c))) nodes L.
 
+  (* the cell ncd[a][b] *)
+  Definition ncd_entry (L : Z) (nodes : list N) (paths : list (N * pmap)) (a : N) (pa : pmap) (b : N) : res (N * Z) :=
+    if N.eqb b a then Ok (b, 0%Z) else
+    match lookup N.eqb b paths with
+    | None => Err KeyError
+    | Some pb => Ok (b, ncd_cell L nodes pa pb)
+    end.
+
   Definition ncd_row (L : Z) (nodes : list N) (paths : list (N * pmap)) (a : N) : res (N * list (N * Z)) :=
     match lookup N.eqb a paths with
     | None => Err KeyError
-    | Some pa =>
-      bind (fold_left (fun acc b =>
-              bind acc (fun row =>
-                if N.eqb b a then Ok (row ++ [(b, 0%Z)]) else
-                match lookup N.eqb b paths with
-                | None => Err KeyError
-                | Some pb => Ok (row ++ [(b, ncd_cell L nodes pa pb)])
-                end)) nodes (Ok []))
-           (fun row => Ok (a, row))
+    | Some pa => bind (res_map (ncd_entry L nodes paths a pa) nodes) (fun row => Ok (a, row))
     end.
 
   Definition ncd (L : Z) (nodes : list N) (paths : list (N * pmap)) : res (list (N * list (N * Z))) :=
-    fold_left (fun acc a => bind acc (fun m => bind (ncd_row L nodes paths a) (fun r => Ok (m ++ [r])))) nodes (Ok []).
+    res_map (ncd_row L nodes paths) nodes.
 
   Record core := mkCore {
     c_nodes : list N; c_sources : list N;
@@ -255,12 +262,6 @@ Definition edge_i_of (ps : list (N * list (slot * ds))) : list (N * list ds) :=
 
 Definition edge_i_proj (edge_i : list (N * list ds)) : list (N * list N) :=
   map (fun p => (fst p, fold_left (fun acc d => sadd (fst d) acc) (snd p) [])) edge_i.
-
-Fixpoint res_map {A B} (f : A -> res B) (l : list A) : res (list B) :=
-  match l with
-  | [] => Ok []
-  | x :: r => bind (f x) (fun y => bind (res_map f r) (fun ys => Ok (y :: ys)))
-  end.
 
 (* enough for every loop: each iteration of `while queue` pops a vertex that was pushed once,
    each iteration of `while remaining` on a DAG places at least one task *)
